@@ -265,6 +265,30 @@ def _is_len_self(e, aliases):
     return G.is_len_of(e, 'self') or (isinstance(e, ast.Name) and e.id in aliases) or ast.unparse(e) == 'len(self._bitstore)'
 
 
+_MODEL = [None]
+
+
+def validator_facts(model, mname):
+    """Facts a helper establishes about the value it returns: for a method `m(self, p)` that only tests p, raises, normalises
+    and returns p, the facts that hold for p at its return statements (the validator summary of DESIGN 2.4)."""
+    if model is None:
+        return None
+    cands = [ci.methods[mname] for c, ci in model.classes.items() if mname in ci.methods]
+    out = None
+    for g in cands:
+        ps = g.params()
+        if len(ps) != 2:
+            return None
+        p = ps[1]
+        rets = [x for x in own_walk(g.node) if isinstance(x, ast.Return)]
+        if not rets or not all(isinstance(x.value, ast.Name) and x.value.id == p for x in rets):
+            return None
+        for x in rets:
+            fx = facts_before(g, p, x.lineno)
+            out = fx if out is None else (out & fx)
+    return out
+
+
 def facts_before(f, var, line):
     """Facts about the local/parameter ``var`` established by dominating guards before ``line``:
     subset of {'ge0', 'gt0', 'le_len', 'lt_len', 'ne0'}."""
@@ -320,6 +344,10 @@ def facts_before(f, var, line):
                 if isinstance(v, ast.Call) and isinstance(v.func, ast.Name) and v.func.id == 'min' and any(_is_len_self(a, aliases) for a in v.args) \
                         and any(isinstance(a, ast.Name) and a.id == var for a in v.args):
                     facts.add('le_len')       # keeps earlier lower-bound facts
+                elif isinstance(v, ast.Call) and isinstance(v.func, ast.Attribute) and len(v.args) == 1 and isinstance(v.args[0], ast.Name) \
+                        and v.args[0].id == var and ast.unparse(v.func.value) == 'self' and validator_facts(_MODEL[0], v.func.attr) is not None:
+                    facts.clear()
+                    facts.update(validator_facts(_MODEL[0], v.func.attr))     # pos = self._checked_position(pos)
                 else:
                     facts.clear()
             elif isinstance(s, ast.AugAssign) and isinstance(s.target, ast.Name) and s.target.id == var:
@@ -391,6 +419,7 @@ def rule_N1(ctx):
     """Every assert is established by its callers' guards (facts) or carries a reviewed reason."""
     m = ctx.m
     r = RuleResult('N1', 'assert obligations: discharged by dominating guards at every public call site, or by a reason')
+    _MODEL[0] = m
     sites = []
     for f in m.funcs.values():
         for x in own_walk(f.node):
